@@ -11,6 +11,9 @@ def dispatch(prop):
     if prop == 'C01':
         import p_diff
         return p_diff.check
+    if prop in ('C11', 'C12'):
+        import p_text
+        return p_text.check
     if prop == 'C07':
         import p_dist
         return p_dist.check
